@@ -443,12 +443,21 @@ Fixpoint contains_d2_from (last_d : bool) (s : bytes) : bool :=
   | [] => false
   end.
 Definition contains_d2 (s : bytes) : bool := contains_d2_from false s.
+(* slice_contains_12_D2: '1' or '2' anywhere, OR two consecutive digits *)
+Fixpoint contains_12_d2_from (last_d : bool) (s : bytes) : bool :=
+  match s with
+  | b :: r => if (b =? 49) || (b =? 50) then true
+              else if is_digit b then (if last_d then true else contains_12_d2_from true r)
+              else contains_12_d2_from false r
+  | [] => false
+  end.
+Definition contains_12_d2 (s : bytes) : bool := contains_12_d2_from false s.
 (* true = the regex is SKIPPED for this slice; [m] = the carried-over ezcheck*_min index *)
 Definition ezcheck_skips (d : dtfs) (m : nat) (slice : bytes) : bool :=
   let s := skipn (Nat.min m (length slice)) slice in
   match has_year4 d, has_d2 d with
   | true, false => negb (contains_12 s)
   | false, true => negb (contains_d2 s)
-  | true, true => negb (contains_12 s && contains_d2 s)
+  | true, true => negb (contains_12_d2 s)
   | false, false => false
   end.
